@@ -42,10 +42,8 @@ def default_props(cls):
     for p in sc.all_props(cls):
         if p["type"] == "QFont":
             out[p["name"]] = dict(FONT_DEFAULT)
-        elif p["name"] == "constVal":
-            out[p["name"]] = 77
         else:
-            out[p["name"]] = DEFAULTS[p["type"]]
+            out[p["name"]] = sc.default_value(p)
     # SimWidget derives from QWidget
     out.update(BUILTIN_PROPS["QWidget"])
     if cls == "SimModel":
@@ -228,6 +226,22 @@ class World:
 
     def call_slot(self, obj, name, args):
         self.trace.append(("call", obj, name, tuple(args)))
+        cls = self.cls.get(obj)
+        if cls in sc.BY_NAME and sc.BY_NAME[cls].get("real"):
+            # slots of the real classes as the stubs implement them
+            if name == "clear":
+                self.write_prop(obj, "text", "")
+            elif name == "toggle":
+                self.write_prop(obj, "checked", not self.props[obj]["checked"])
+            elif name in ("stepUp", "stepDown"):
+                d = 1 if name == "stepUp" else -1
+                v = self.props[obj]["value"] + d * self.props[obj]["singleStep"]
+                self.write_prop(obj, "value", wrap_i32(v) if isinstance(v, int) else v)
+            elif name == "reset":
+                self.write_prop(obj, "value", self.props[obj]["minimum"])
+            else:
+                raise ValueError("slot " + name)
+            return
         if name == "bump":
             self.write_prop(obj, "intVal", wrap_i32(self.props[obj]["intVal"] + args[0]))
         elif name == "say":
